@@ -86,13 +86,17 @@ def compile_view(parsed):
     return sorted((b["inputs"][0], base_name(b["rule"]), tuple(b["outs"])) for b in compile_stmts(parsed))
 
 def orderonly_view(parsed):
-    """order-only deps of every non-phony statement, keyed by outputs; plus phony statements with deps"""
+    """order-only deps of every statement. Compile statements are keyed by (rule base, source) -- their
+    object names embed the hash of the deps -- and carry the sorted list of their deps tuples; other
+    statements are keyed by their outputs"""
     v = {}
     for b in parsed["builds"]:
-        key = (base_name(b["rule"]), tuple(b["outs"]))
-        v[key] = (tuple(sorted(b["deps"])), tuple(b["inputs"]) if b["rule"] == "phony" else ())
-    return v
-
+        base = base_name(b["rule"])
+        if len(b["inputs"]) == 1 and base not in ("phony", "LINK", "POST_LINK", "BUILD"):
+            v.setdefault((base, "src:" + b["inputs"][0]), []).append(tuple(sorted(b["deps"])))
+        else:
+            v[(base, tuple(b["outs"]))] = [(tuple(sorted(b["deps"])), tuple(b["inputs"]) if b["rule"] == "phony" else ())]
+    return {k: sorted(x, key=str) for k, x in v.items()}
 
 def link_sources(parsed):
     """per LINK output: the ordered list of (source, rule base) whose objects it consumes -- independent of how objects are named"""
